@@ -475,7 +475,42 @@ pub struct C16State {
 }
 pub use crate::txgen::C18State;
 #[derive(Default)]
-pub struct C06State {}
+pub struct C06State {
+    /// block number of every registered script as last seen (reset by the user's set_scripts)
+    pub progress: HashMap<Vec<u8>, u64>,
+}
+
+/// A script's recorded block number may only be raised over blocks whose filters were checked:
+/// never beyond the filtered height.
+pub fn c06_progress(ck: &mut Checker, sim: &mut Sim) {
+    if !ck.flag("byz_filters") {
+        return;
+    }
+    let c = match sim.client.as_ref() {
+        Some(c) => c,
+        None => return,
+    };
+    let mf = c.storage.get_min_filtered_block_number();
+    let mut findings: Vec<String> = Vec::new();
+    let mut now: HashMap<Vec<u8>, u64> = HashMap::new();
+    for s in c.storage.get_filter_scripts() {
+        let mut key = s.script.as_slice().to_vec();
+        key.push(matches!(s.script_type, crate::storage::ScriptType::Lock) as u8);
+        if let Some(prev) = ck.c06.progress.get(&key) {
+            if s.block_number > *prev && s.block_number > mf {
+                findings.push(format!(
+                    "a script's block number was raised from {} to {} although filters are checked only up to block {} (during {})",
+                    prev, s.block_number, mf, sim.last_event_kind
+                ));
+            }
+        }
+        now.insert(key, s.block_number);
+    }
+    ck.c06.progress = now;
+    for d in findings {
+        sim.violate("C06", "script_progress_raised_beyond_the_checked_filters", d);
+    }
+}
 #[derive(Default)]
 pub struct C02State {}
 #[derive(Default)]
